@@ -69,8 +69,10 @@ META = {
         'rule': 'one run = one seeded history of optimizer operations '
                 '(enable/disable fit, set_mode, set_boundary, '
                 'set_factor_boundary, set_prior, enable/disable derived, '
-                'compile_params, update_model, direct parameter writes, misuse '
-                'faults) on a long-lived Optimizer+model+observation; '
+                'compile_params, update_model, direct parameter writes, settings '
+                'arriving through an input file\'s [Fitting]/[Derive] sections '
+                'via ParameterParser.setup_optimizer, misuse faults incl. input '
+                'files naming unknown parameters) on a long-lived Optimizer+model+observation; '
                 'non-trivial = at least two compilations with a settings '
                 'change in between, or at least one injected misuse fault; '
                 'distinct = distinct hash of the sequence of (reference '
@@ -79,8 +81,10 @@ META = {
         'probes': ['recompile_after_change', 'mixed_space_prior',
                    'derived_disabled_after_enable', 'obs_param_fitted',
                    'update_after_direct_write', 'misuse_fired',
-                   'real_model_run'],
+                   'real_model_run', 'settings_from_input_file'],
         'real': ['taurex.optimizer.Optimizer (all mutators and views)',
+                 'ParameterParser.read / generate_fitting_parameters / '
+                 'setup_optimizer, create_prior (prior text form)',
                  'taurex.data.fittable.Fittable', 'taurex.core.priors',
                  'taurex.model.ForwardModel parameter tables',
                  'SimpleForwardModel.collect_fitting_parameters over a real '
@@ -102,16 +106,19 @@ META = {
                 'pre-emption at collectives, every exchange pickled per '
                 'receiver), each with its own real model/optimizer, running '
                 'generate_profiles and compute_derived_trace on a generated '
-                'posterior; non-trivial = R >= 2; distinct = distinct (R, '
+                'posterior (in a share of runs a second solution with another '
+                'posterior is post-processed by the same objects); non-trivial = R >= 2; distinct = distinct (R, '
                 'per-rank sample-count vector, N, arrival order of ranks at '
                 'every collective)',
         'probes': ['rank_with_0_samples', 'rank_with_1_sample', 'tied_weights',
-                   'zero_weights', 'fewer_than_2_processed'],
+                   'zero_weights', 'fewer_than_2_processed',
+                   'second_solution_same_objects'],
         'real': ['Optimizer.generate_profiles / sample_parameters / '
                  'compute_derived_trace', 'SimpleForwardModel.compute_error',
                  'OnlineVariance (update, parallelVariance, combine_variance)',
-                 'all taurex.mpi call sites', 'TransmissionModel/EmissionModel '
-                 'with Absorption/CIA/Rayleigh, TaurexChemistry, ConstantGas, '
+                 'all taurex.mpi call sites', 'TransmissionModel/EmissionModel/'
+                 'DirectImageModel with Absorption/CIA/Rayleigh/SimpleClouds/'
+                 'FlatMie/LeeMie, TaurexChemistry, ConstantGas, '
                  'Isothermal/Guillot, ArraySpectrum, FluxBinner',
                  'quantile_corner'],
         'stub': ['mpi4py -> SimWorld (sim/mpi_world.py)',
@@ -139,20 +146,27 @@ META = {
                 'and likelihood callbacks of the real wrapper from a seeded op '
                 'list (prior-only calls, prior+likelihood, re-evaluation of '
                 'earlier points, cube corners, bursts aimed at invalid '
-                'atmospheres, armed contribution faults); every callback is '
+                'atmospheres, armed contribution faults; in a share of runs '
+                'the same long-lived optimizer is re-configured through its '
+                'public mutators - priors narrowed or replaced, modes flipped, '
+                'parameters dropped or brought back - and fitted again, one or '
+                'two times); every callback is '
                 'compared with an independent oracle (inverse CDFs; Gaussian '
                 'log-likelihood of a reference-binned fresh model set by '
                 'name); non-trivial = at least two likelihood callbacks; '
                 'distinct = distinct (sampler, fitted names, prior kinds, '
                 'run-length pattern of valid/invalid/fault callbacks)',
         'probes': ['valid_right_after_invalid', 'repeated_point',
-                   'mixed_space_prior', 'obs_param_fitted', 'exact_fit_run'],
+                   'mixed_space_prior', 'obs_param_fitted', 'exact_fit_run',
+                   'refit_session'],
         'real': ['NestleOptimizer/MultiNestOptimizer/PolyChordOptimizer '
                  'compute_fit closures', 'Optimizer.compile_params / '
                  'update_model / chisq_trans', 'taurex.core.priors',
                  'ArraySpectrum, FluxBinner, NativeBinner',
-                 'TransmissionModel/EmissionModel with Absorption/CIA/Rayleigh, '
-                 'TaurexChemistry (InvalidChemistryException path)'],
+                 'TransmissionModel/EmissionModel/DirectImageModel with '
+                 'Absorption/CIA/Rayleigh/SimpleClouds/FlatMie/LeeMie, '
+                 'Isothermal/Guillot2010 (fitted), TaurexChemistry '
+                 '(InvalidChemistryException path)'],
         'stub': ['nestle.sample, pymultinest.run, pypolychord.run_polychord '
                  '-> session doubles (sim/samplers.py)',
                  'toy analytic ForwardModel/BaseSpectrum (share of runs)',
@@ -168,28 +182,37 @@ META = {
             'with FluxBinner to 6e-16 on 300 such layouts)',
             'likelihood tolerance 1e-10*|L|+1e-9; prior tolerance 1e-9',
             'invalid atmospheres reachable here: sum of mixing ratios > 1, toy '
-            'limit, injected contribution faults',
+            'limit, injected contribution faults; a model whose spectrum is '
+            'not finite (e.g. NaN temperatures from a negative Guillot '
+            'opacity in the tail of a Gaussian prior) must give a non-finite '
+            'callback value',
+            'a parameter fitted by an earlier session and no longer fitted '
+            'keeps the value last written (oracle and untouched-check follow '
+            'that)',
         ],
     },
     'C09': {
         'rule': 'one run = one Optimizer.fit() end to end on R simulated ranks '
                 'with the sampler replaced by a peer that returns a generated '
                 'posterior (nestle Result object, MultiNest files, PolyChord '
-                'files; a share of runs use the real seeded nestle); the '
+                'files; a share of runs use the real seeded nestle; in a share '
+                'of runs the same optimizer object is fitted a second time '
+                'with another posterior and number of modes); the '
                 'solution dictionary is compared with references computed '
                 'from the sampler output as written; all runs are '
                 'non-trivial; distinct = distinct (sampler, number of modes, '
                 'mode sizes, weight families, R, fitted and derived names, '
                 'sigma_fraction)',
         'probes': ['unequal_modes', 'multi_mode', 'tied_weights',
-                   'real_nestle_run'],
+                   'real_nestle_run', 'second_fit_same_optimizer'],
         'real': ['Optimizer.fit / generate_solution / generate_profiles / '
                  'compute_derived_trace', 'store_nestle_output, '
                  'store_nest_solutions, store_polychord_solutions, '
                  'get_poly_stats', 'quantile_corner', 'binner '
                  'generate_spectrum_output, store_contributions',
                  'real nestle library (share of runs, seeded np.random)',
-                 'TransmissionModel with Absorption/CIA/Rayleigh'],
+                 'Transmission/Emission/DirectImage models with '
+                 'Absorption/CIA/Rayleigh/SimpleClouds/FlatMie/LeeMie'],
         'stub': ['nestle.sample double returning nestle.Result',
                  'pymultinest double writing <base>.txt, post_separate.dat, '
                  'stats.dat and serving Analyzer.get_stats',
@@ -202,8 +225,9 @@ META = {
             'in post_separate.dat separated by two blank lines; Analyzer '
             'reports per-mode mean/sigma/maximum/MAP in multimodal runs and no '
             'modes otherwise',
-            'MAP: nestle = a sample of greatest weight; MultiNest = the MAP the '
-            'sampler reported; PolyChord = only required to be a stored sample',
+            'MAP: nestle = ONE stored sample of greatest weight (all '
+            'coordinates from the same row); MultiNest = the MAP the sampler '
+            'reported; PolyChord = only required to be one stored sample',
             'sample values are distinct per parameter (ties in x make the '
             'quantile rule order dependent); weights may tie freely',
             'resume/crash of the external samplers is out of scope',
@@ -212,11 +236,14 @@ META = {
     'C14': {
         'rule': 'one run = one history of cache operations (set path, set '
                 'interpolation, memory mode, clear, get, interior probe, '
-                'add_opacity, CIA and k-table requests) interleaved with '
+                'add_opacity, list loads, listings of available molecules / '
+                'k-tables, CIA and k-table requests) interleaved with '
                 'storage events (file replaced / removed / added, listing '
                 'order and format-class order permuted) over a per-run scratch '
                 'store holding the same physical tables in every container '
-                'format; checked op by op against a dict reference model; '
+                'format (Exo-Transmit wavelength blocks ascending, descending '
+                'or shuffled; HDF5 molecule name scalar or array, with or '
+                'without DOI; HITRAN blocks shuffled); checked op by op against a dict reference model; '
                 'non-trivial = at least one container actually loaded; '
                 'distinct = distinct (set of formats loaded, set of op-kind '
                 'trigrams, storage fault kinds fired)',
@@ -251,15 +278,19 @@ META = {
         'rule': 'one run = one history of store operations in phases (open w, '
                 'nested groups, store_dictionary of generated nested result '
                 'dictionaries, spectrum dictionaries from a real binner and '
-                'model at every output size, model.write, close, re-open in '
-                'append mode) executed on R simulated ranks, then read back '
+                'model at every output size - also for results on sub-ranges '
+                'and on same-length grids of another spacing through one '
+                'shared binner -, model.write, close, re-open in append mode, '
+                'a name of an earlier phase stored again with values that do '
+                'not fit the stored types) executed on R simulated ranks, then read back '
                 'with plain h5py and compared with a nested-dict reference; '
                 'reload runs rebuild the model from the file and compare '
                 'component types, constructor values and spectrum; all runs '
                 'non-trivial; distinct = distinct (part, set of (leaf type, '
                 'depth), number of phases, R, spectrum ops, contributions, '
                 'model family)',
-        'probes': ['append_phase', 'reload_run', 'solution_store_run'],
+        'probes': ['append_phase', 'reload_run', 'solution_store_run',
+                   'same_length_other_spacing', 'stored_again_refused'],
         'real': ['HDF5Output / HDF5OutputGroup', 'Output.store_dictionary, '
                  'recursively_save_dict_contents_to_output, store_thing',
                  'Binner/FluxBinner/SimpleBinner/NativeBinner '
@@ -273,9 +304,15 @@ META = {
             'elements and strings may exceed 64 characters (reported under a '
             'separate key)',
             'components limited to those that run on Python 3.12 / NumPy 2: '
-            'Isothermal, Guillot2010, ConstantGas, SimplePressureProfile, '
-            'Planet, BlackbodyStar, Absorption, CIA, Rayleigh, SimpleClouds, '
-            'FlatMie, LeeMie; transmission, emission, direct image',
+            'Isothermal, Guillot2010, Rodgers2000, TemperatureArray, '
+            'ConstantGas, TwoPointGas, ArrayGas, PowerGas, 1-3 fill gases, '
+            'SimplePressureProfile, Planet, BlackbodyStar (every constructor '
+            'argument varied), Absorption, CIA, Rayleigh, SimpleClouds, '
+            'FlatMie, LeeMie, HydrogenIon; transmission, emission, direct '
+            'image',
+            'a second store under an existing name may be refused (file '
+            'unchanged) or accepted (file holds the new values exactly); '
+            'anything in between is a violation',
             'crash consistency of the HDF5 file is not promised by the '
             'property and is not injected',
         ],
@@ -284,14 +321,16 @@ META = {
         'rule': 'one run = one call history on a long-lived TransmissionModel '
                 'built from a seeded subset/ordering of Absorption, CIA, '
                 'Rayleigh, SimpleClouds, FlatMie, LeeMie, H-: model(), '
-                'model(wngrid=sub), model_contrib(), model_full_contrib(), '
+                'model(wngrid=sub), model_contrib(), model_full_contrib() (both '
+                'also restricted to a sub-range), '
                 'store_contributions(), parameter writes (incl. abundance -> 0, '
                 'x2, invalid vectors); after every evaluating op the product '
                 'relations R1-R5 and equality with a fresh model at the same '
                 'parameters (R6) are checked; non-trivial = >= 2 contributions '
                 'or >= 2 species; distinct = distinct (contribution set, add '
                 'order, set of op-kind bigrams)',
-        'probes': ['three_or_more_components', 'evaluate_while_invalid'],
+        'probes': ['three_or_more_components', 'evaluate_while_invalid',
+                   'parts_on_sub_grid'],
         'real': ['TransmissionModel (both path methods), SimpleForwardModel '
                  'model/model_contrib/model_full_contrib/build',
                  'AbsorptionContribution, CIAContribution, RayleighContribution, '
